@@ -327,7 +327,8 @@ def catalog():
         lambda p, ins: ((ins[0], ins[1]), dict({k: v for k, v in p.items() if k != "stats_funcs"},
                                                **({"stats_funcs": list(p["stats_funcs"])} if "stats_funcs" in p else {}))),
         variants=[{}, {"stats_funcs": ["mean", "max", "min", "sum", "std", "var", "count"]}, {"stats_funcs": ["sum", "count"]},
-                  {"zone_ids": [1, 3]}, {"nodata_values": 10}, {"return_type": "xarray.DataArray"}])
+                  {"zone_ids": [1, 3]}, {"nodata_values": 10}, {"return_type": "xarray.DataArray"}],
+        variant_backends={5: ["numpy"]})      # return_type='xarray.DataArray' is NumPy only (the dask path raises)
     add("zonal_crosstab", "zonal", "crosstab", [("zones", "zones", {}), ("values", "cats", {})],
         lambda p, ins: ((ins[0], ins[1]), dict(p)),
         variants=[{}, {"agg": "percentage"}, {"zone_ids": [0, 3]}, {"cat_ids": [10, 30]}])
@@ -411,7 +412,7 @@ def build_inputs(entry, dtype, layout, backend, seed=0, h=H, w=W):
 def catalog_meta():
     """Pure-python view for the drivers: {name: {"nvariants": n, "backends": [...], "nin": k}}"""
     C, _ = catalog()
-    return {k: {"nvariants": len(v["variants"]), "variants": v["variants"],
+    return {k: {"nvariants": len(v["variants"]), "variants": v["variants"], "variant_backends": v.get("variant_backends", {}),
                 "backends": (v.get("only") or {}).get("backend", BACKENDS), "nin": len(v["ins"])}
             for k, v in C.items()}
 
